@@ -20,7 +20,11 @@ def race_run(pid, tier, seed):
 
 
 SPEC = {
-    "corr": [{"kind": "pipeline", "quick": 120, "thorough": 6400, "runner": RUNNER}],
+    "corr": [{"kind": "pipeline", "quick": 120, "thorough": 6400, "runner": RUNNER},
+             # the same pipelines after silence: the read loop's 1 s read deadline expires before the first and before the
+             # middle datagram of the data phase (idle-then-burst)
+             {"kind": "pipeline", "label": "pipeline-idle", "seed_offset": 31, "quick": 8, "thorough": 160, "runner": RUNNER,
+              "env": {"VERIF_PIPE_IDLE_MS": "1100", "VERIF_PIPE_MAXDG": "300"}}],
     "extra": [race_run],
     "search_factor": 2,
     "rule": "a case = protocol (ipfix/v9/v5/sflow) x 1..64 real worker goroutines x 20..2000 datagrams (decodable / "
